@@ -472,6 +472,65 @@ def rule_d8(toks, log):
 
 
 # ---------------------------------------------------------------------------------------
+# D9: contract of a closure whose body is a bare expression
+
+def rule_d9(toks, log):
+    """`|params| /*@ -> (r: T) ensures .. @*/ EXPR` where the closure is a call argument (preceded by `(` or `,`,
+    EXPR runs to the `)`/`,` that ends the argument) ==> `|params| -> (r: T) ensures .. { EXPR }`.
+    Verus (like Rust) needs a block after a closure return type; the braces do not change the meaning."""
+    out = list(toks)
+    i = 0
+    while i < len(out):
+        t = out[i]
+        head_end = None
+        if not t[2] and t[0] == 'p' and t[1] == '||':
+            head_end = i
+        elif not t[2] and t[0] == 'p' and t[1] == '|' and i > 0 and out[i - 1][0] == 'p' and out[i - 1][1] in ('(', ','):
+            j = i + 1
+            while j < len(out) and not (out[j][0] == 'p' and out[j][1] == '|'):
+                if out[j][0] == 'p' and out[j][1] in ('{', '}', ';'):
+                    j = len(out)
+                    break
+                j += 1
+            if j < len(out):
+                head_end = j
+        if head_end is None or head_end + 1 >= len(out) or not (out[head_end + 1][2] and _is(out[head_end + 1], '->')):
+            i += 1
+            continue
+        if not (i > 0 and out[i - 1][0] == 'p' and out[i - 1][1] in ('(', ',')):
+            raise Unsupported('D9: annotated closure is not a call argument')
+        a = head_end + 1
+        while a < len(out) and out[a][2]:
+            a += 1
+        if a >= len(out):
+            raise Unsupported('D9: closure without body')
+        if _is(out[a], '{'):
+            i = a
+            continue            # already a block
+        d = 0
+        e = a
+        while e < len(out):
+            tk = out[e]
+            if tk[0] == 'p' and tk[1] in rtok.OPEN:
+                d += 1
+            elif tk[0] == 'p' and tk[1] in rtok.CLOSE:
+                if d == 0:
+                    break
+                d -= 1
+            elif d == 0 and tk[0] == 'p' and tk[1] in (',', ';'):
+                break
+            e += 1
+        if e >= len(out) or not (out[e][0] == 'p' and out[e][1] in (')', ',')):
+            raise Unsupported('D9: closure body shape')
+        if any(x[2] for x in out[a:e]):
+            raise Unsupported('D9: annotation inside a closure body expression')
+        log.append('D9 closure body `%s` wrapped in a block to carry its contract' % _txt(out[a:e])[:80])
+        out = out[:a] + [T('p', '{')] + out[a:e] + [T('p', '}')] + out[e:]
+        i = e + 2
+    return out
+
+
+# ---------------------------------------------------------------------------------------
 
 def lower(toks, marks, opts=None):
     """toks: [(kind,text)], marks: [bool]; returns ([(kind,text)], log)."""
@@ -483,5 +542,6 @@ def lower(toks, marks, opts=None):
     ts = rule_d3(ts, log, drop=opts.get('drop_asserts', ()))
     ts = rule_d7(ts, log)
     ts = rule_d1(ts, log)
+    ts = rule_d9(ts, log)
     ts = rule_d8(ts, log)
     return [(k, t) for k, t, _ in ts], log
